@@ -283,7 +283,8 @@ def generate_dependent_dispatch(tup, handlers, next_call, slf, name, err, nerr):
 
     else:
         for i, conj in enumerate(conjs):
-            body.append(f"MATCH{i} = {conj}")
+            # (a condition may return any truthy value: it counts as one match)
+            body.append(f"MATCH{i} = bool({conj})")
 
         summation = " + ".join(f"MATCH{i}" for i in range(len(handlers)))
         body.append(f"SUMMATION = {summation}")
